@@ -34,6 +34,14 @@ FailedC05(r) ==
                      /\ Len(r.out.roots) = Len(d.roots)
                      /\ IsoVia(HeapOf(r.out.cells), d.heap, r.out.map)
                      /\ \A j \in 1..Len(d.roots) : r.out.map[r.out.roots[j]] = d.roots[j])
+         \* a second parse of the same bytes, after the caller emptied the list the first parse returned
+         \cup (IF ~Has(r, "again") THEN {}
+               ELSE IF Has(r.again, "err") THEN {"accepts_wellformed_every_time"}
+               ELSE Clause("roots_exact_every_time",
+                           /\ Len(r.again.roots) = Len(d.roots)
+                           /\ IsoVia(HeapOf(r.again.cells), d.heap, r.again.map)
+                           /\ \A j \in 1..Len(d.roots) : r.again.map[r.again.roots[j]] = d.roots[j]
+                           /\ r.again.map[r.again.one] = d.roots[1]))
     ELSE Clause("rejects_" \o r.cls, Has(r.out, "err"))
 \* the class label is not trusted: a record labelled valid must decode, a corrupted one must not
     \cup Clause("label_valid_but_spec_rejects_" \o (IF d.ok THEN "" ELSE d.why), r.cls = "valid" => d.ok)
